@@ -564,6 +564,11 @@ package actor
 //@ func (*scheduler.Scheduler).DeleteJob
 //@   trusted
 //@   ghostinc deleted(jobKey)
+// wiping the scheduler that all actors of the system share: no per-actor operation may do that (it is in no frame)
+//@ ghost clearedall(mathint)
+//@ func (*scheduler.Scheduler).Clear
+//@   trusted
+//@   ghostinc clearedall(0)
 //@ pure schedwf(s *Scheduler) bool = s.ctx != nil && ctxwf(s.ctx) && s.scheduler != nil && s.jobKeys != nil &&
 //@     forall r string :: r in s.jobKeys ==> s.jobKeys[r] != nil
 // firing: exactly one hand-over of a *SchedulerMessage (a user message), to the receiver - through the actor's
